@@ -102,7 +102,11 @@ func runRacePass(c *xs.Ctx, r *xs.Result) {
 		for _, l := range strings.Split(text, "\n") {
 			l = strings.TrimSpace(l)
 			if strings.HasPrefix(l, "github.com/zenon-network/go-zenon/") && len(frames) < 2 {
-				frames = append(frames, strings.SplitN(strings.TrimPrefix(l, "github.com/zenon-network/go-zenon/"), "(", 2)[0])
+				fn := strings.TrimPrefix(l, "github.com/zenon-network/go-zenon/")
+				if i := strings.LastIndex(fn, "("); i > 0 {
+					fn = fn[:i] // drop the argument list, keep receivers such as (*accountPool)
+				}
+				frames = append(frames, fn)
 			}
 		}
 		if i := strings.Index(text, "WARNING: DATA RACE"); i >= 0 {
